@@ -432,6 +432,15 @@ func main() {
 	for _, lk := range leaks {
 		c.Emit(map[string]any{"kind": "leak", "impl": lk})
 	}
+	// long-lived engine instances: client aborts mid-flow, then complete streams on the same instance
+	rounds := 40
+	if vlib.Tier() == "thorough" {
+		rounds = 400
+	}
+	for _, engine := range engines {
+		c.Emit(map[string]any{"kind": "soak", "engine": engine, "impl": soak(engine, rounds, 4, 8)})
+		c.Count("soak." + engine)
+	}
 	c.Close(map[string]any{"exhaustive": false, "flaky_not_reproduced": flaky, "harness_wall_s": time.Since(t0).Seconds(),
 		"note": "corpus of hard-coded corner cases and witnesses for both engines first, then random scenarios; leak clause measured per batch"})
 }
